@@ -8,6 +8,10 @@ VERIF = vbuild.VERIF
 EVID = os.path.join(VERIF, "evidence")
 KNOWN = os.path.join(VERIF, "known_findings.txt")
 OUT = os.path.join(VERIF, "build", "out")
+if os.path.realpath(vbuild.REPO) != "/repo":
+    # runs against another tree (tools/mutant.sh, fix worktrees) keep their scratch output apart, so that they can run
+    # at the same time as a check of /repo itself
+    OUT = os.path.join(VERIF, "build", "out-" + os.path.basename(vbuild.REPO.rstrip("/")))
 REPLAY = os.path.join(VERIF, "build", "replay")
 
 ASAN_ENV = {
@@ -204,8 +208,13 @@ def write_evidence(pid, mod, tier, seed, res, wall, n_viol, n_known):
     j = dict(property_id=pid, tier=tier, seed=seed, level=level, coverage=cov,
              assumptions=res.assumptions + list(getattr(mod, "ASSUMPTIONS", [])),
              wall_s=round(wall, 2), violations=n_viol)
-    os.makedirs(EVID, exist_ok=True)
-    with open(os.path.join(EVID, pid + ".json"), "w") as f:
+    # a run against another tree than /repo (tools/mutant.sh, a fix worktree) must not replace the committed evidence
+    evid = EVID
+    other = os.environ.get("VERIF_REPO")
+    if other and os.path.realpath(other) != "/repo":
+        evid = os.path.join(VERIF, "build", "evidence-other-tree")
+    os.makedirs(evid, exist_ok=True)
+    with open(os.path.join(evid, pid + ".json"), "w") as f:
         json.dump(j, f, indent=1, sort_keys=False)
         f.write("\n")
 
